@@ -85,7 +85,7 @@ theorem encWordLoop_scanOpen (ws : List (BitVec 64)) (n d : Nat) (hn : n ≤ ws.
 
 /-- `trees::enclose(words, len, p)` = the nearest enclosing open by the right-to-left scan, for
 every `|ws| = ⌈len/64⌉`, `len < 2^31`. -/
-theorem freeEnclose_eq (ws : List (BitVec 64)) (len p : Nat) (hw : ws.length = (len + 63) / 64)
+theorem freeEnclose_eq (ws : List (BitVec 64)) (len p : Nat) (hw : (len + 63) / 64 ≤ ws.length)
     (hlen : len < 2 ^ 31) :
     freeEnclose ws.toArray len p = BP.enclose (bitsOf ws len) p := by
   unfold freeEnclose BP.enclose
